@@ -4,6 +4,7 @@ package c14
 import (
 	"context"
 	"fmt"
+	"strings"
 	"sync"
 	"testing"
 	"time"
@@ -25,7 +26,7 @@ func TestMain(m *testing.M) {
 		"generated repositories of 1..40 records (unique IDs anywhere in 0..0xFFFE in arbitrary order, first ID zero or not, types full/compact/event-only/FRU locator/MC locator/OEM, "+
 			"Full Sensor Records with generated fields and ID strings in all four encodings incl. empty, ID string <= 16 bytes) retrieved by RetrieveSDRRepository over a real session; "+
 			"faults injected before the k-th Get SDR of the walk: reservation cancelled, or repository modified (add / delete / replace with timestamps advanced and the reservation "+
-			"cancelled, or an append that keeps the reservation). Oracle: returned map == {record's own ID -> reference decoding} of the Full Sensor Records of the single repository "+
+			"cancelled, or an append / delete / replace that keeps the reservation). Oracle: returned map == {record's own ID -> reference decoding} of the Full Sensor Records of the single repository "+
 			"version current during the final successful walk. Non-trivial = >= 2 record types, >= 1 FSR, and first ID != 0 or a fault injected; distinct by repository + fault")
 	ev.Assume("each retry of the retrieval sleeps 0.25-0.75 s in the library's inline exponential back-off, so fault cases run concurrently",
 		"BMCs that change content without touching timestamps or reservations are out of scope")
@@ -244,12 +245,12 @@ func mutateRepo(r Repo, f Fault) Repo {
 		n.Recs = append(n.Recs[:pos], append([]Rec{extra}, n.Recs[pos:]...)...)
 	case "append-keep":
 		n.Recs = append(n.Recs, extra)
-	case "delete":
+	case "delete", "delete-keep":
 		if len(n.Recs) > 1 {
 			pos := (f.K * 5) % len(n.Recs)
 			n.Recs = append(n.Recs[:pos], n.Recs[pos+1:]...)
 		}
-	case "replace":
+	case "replace", "replace-keep":
 		pos := (f.K * 3) % len(n.Recs)
 		extra.ID = n.Recs[pos].ID
 		if extra.FSR != nil {
@@ -286,12 +287,16 @@ func runFault(f Fault) (msg string, nontrivial string) {
 			for _, rec := range final.Recs {
 				rp.Records = append(rp.Records, simbmc.Record{ID: rec.ID, Bytes: rec.Raw})
 			}
-			if f.Kind == "delete" {
+			switch f.Kind {
+			case "delete", "delete-keep":
 				rp.EraseTS += 5
-			} else {
+			case "replace", "replace-keep":
+				rp.EraseTS += 5
+				rp.AddTS += 5
+			default:
 				rp.AddTS += 5
 			}
-			if f.Kind != "append-keep" {
+			if !strings.HasSuffix(f.Kind, "-keep") {
 				rp.CancelReservation()
 			}
 		}
@@ -334,7 +339,7 @@ func walkLength(repoSeed int) int {
 }
 
 func TestFaults(t *testing.T) {
-	kinds := []string{"cancel", "add", "delete", "replace", "append-keep"}
+	kinds := []string{"cancel", "add", "delete", "replace", "append-keep", "delete-keep", "replace-keep"}
 	var faults []Fault
 	repos := ev.Pick(12, 60)
 	for i := 0; i < repos; i++ {
@@ -352,8 +357,8 @@ func TestFaults(t *testing.T) {
 			}
 		}
 	}
-	if !ev.Thorough() && len(faults) > 160 {
-		faults = faults[:160]
+	if !ev.Thorough() && len(faults) > 220 {
+		faults = faults[:220]
 	}
 	var mu sync.Mutex
 	var wg sync.WaitGroup
@@ -400,6 +405,6 @@ func TestFaults(t *testing.T) {
 }
 
 func TestCoverage(t *testing.T) {
-	ev.RequireLabels(t, 1, "faults-complete", "fault:cancel", "fault:add", "fault:delete", "fault:replace", "fault:append-keep",
+	ev.RequireLabels(t, 1, "faults-complete", "fault:cancel", "fault:add", "fault:delete", "fault:replace", "fault:append-keep", "fault:delete-keep", "fault:replace-keep",
 		"idstring:enc0:empty=true", "idstring:enc3:empty=true", "idstring:enc1:empty=false", "idstring:enc2:empty=false")
 }
